@@ -33,6 +33,7 @@ func init() {
 			ruleIndexRebuilt(c, "R2a")
 			ruleIndexRebuildComplete(c, "R2b")
 			ruleHostsGuards(c, "R3")
+			ruleBacktrackUndo(c, "R4")
 		},
 	})
 	register(&Spec{
@@ -117,6 +118,26 @@ func ruleGroupScan(c *Ctx, rule string) {
 		}
 	})
 	c.R.Add(rule, c.fk(add), "append-at-end", c.P.Pos(add.Pos()), okAppend, ifelse(okAppend, "routers = append(routers, r)", "Group.Add does not append the new router after the existing ones"))
+	// Remove keeps the order of the remaining routers
+	rem := c.P.MustFunc("mux.(*Group).Remove")
+	okRem, got := false, ""
+	an.AllInstrs(rem, func(in ssa.Instruction) {
+		if base, field, val, ok := fieldStoreAny(in); ok && base == "recv" && field == "routers" {
+			t := c.O.Of(val)
+			got = t.String()
+			okRem = t.Op == "call" && (t.S == "slices.DeleteFunc" || t.S == "slices.Delete") && len(t.Args) > 0 && t.Args[0].String() == "recv.routers"
+		}
+	})
+	elemStores := 0
+	an.AllInstrs(rem, func(in ssa.Instruction) {
+		if st, ok := in.(*ssa.Store); ok {
+			if ia, ok := st.Addr.(*ssa.IndexAddr); ok && an.AP(ia.X) == "recv.routers" {
+				elemStores++
+			}
+		}
+	})
+	okRem = okRem && elemStores == 0
+	c.R.Add(rule, c.fk(rem), "remove:order-preserving", c.P.Pos(rem.Pos()), okRem, ifelse(okRem, "routers = slices.DeleteFunc(routers, name == …): the remaining routers keep their order", "Group.Remove rebuilds the router list as "+got+" (element stores: "+fmt.Sprint(elemStores)+"): the remaining routers do not keep the order in which they were added"))
 }
 
 // routerOfMatcher: the router value whose matcher field the invocation uses.
@@ -295,6 +316,9 @@ func ruleHostsGuards(c *Ctx, rule string) {
 	f := c.P.MustFunc("mux.(*Hosts).Match")
 	vop := c.P.MustFunc("mux.validOptionalPort")
 	c.R.Rule(c.R.Property+"."+rule, 2, "the host is stripped of a valid ':port' and of IPv6 brackets only")
+	if len(an.Calls(f, func(n string, _ *ssa.CallCommon) bool { return n == an.FuncKey(vop) })) == 0 {
+		c.R.Add(rule, c.fk(f), "cut:port/behind:validOptionalPort(rest)", c.P.Pos(f.Pos()), false, "Hosts.Match no longer validates the text after the last ':' as a port before cutting it: hosts with a non-numeric 'port' are accepted")
+	}
 	an.AllInstrs(f, func(in ssa.Instruction) {
 		sl, ok := in.(*ssa.Slice)
 		if !ok {
@@ -425,6 +449,22 @@ func rulePathVersion(c *Ctx, rule string) {
 	})
 	if !found {
 		c.R.Add(rule, c.fk(ctor), "store:version[i]=normalised", c.P.Pos(ctor.Pos()), false, "the constructor no longer stores normalised versions")
+	}
+	for _, l := range rangeLoops(ctor) {
+		for _, e := range l.elems {
+			path := (&an.Query{
+				TargetEdge: loopBackEdge(l),
+				Block: func(in ssa.Instruction) bool {
+					st, ok := in.(*ssa.Store)
+					if !ok {
+						return in == e
+					}
+					_, isIA := st.Addr.(*ssa.IndexAddr)
+					return isIA && an.AP(st.Addr) == "p:version[]"
+				},
+			}).Search(an.After(e))
+			c.R.Add(rule, c.fk(ctor), "store:version[i]/on-every-path", c.pos(e), path == nil, ifelse(path == nil, "every version is written back after normalisation", "a version can pass through the constructor loop without its normalised form being stored (for example one that already ends in '/' but lacks the leading '/')"))
+		}
 	}
 }
 
